@@ -18,6 +18,8 @@ GLOBAL_ASSUMPTIONS = [
     "core::system_metric::get_total_memory_size is stubbed by an arbitrary value (avoids sysinfo/rayon in the dyn SentinelRule vtable)",
     "std::sync::Arc::drop_slow is stubbed by a no-op (objects are leaked instead of freed; reference counts still move exactly; "
     "Drop impls of pointees are not run) and std::sync::Once::call_once by 'run the closure' - in every Kani obligation",
+    "Kani runs with -Z restrict-vtable (virtual calls are resolved to the implementations of that trait method only; without it "
+    "CBMC resolves them to every function with a compatible signature and does not finish); this unstable Kani feature is trusted",
     "Kani 0.68 / CBMC 6.11 / CaDiCaL, Verus 0.2026.09.13 / z3 and rustc are trusted; Kani's memory model of Arc/Mutex/Vec is trusted",
     "machine integers are bit-precise (overflow checked); floats are IEEE-754 bit-precise in CBMC, never treated as reals; "
     "termination is not proved by Kani (loops are closed by unwinding assertions)",
